@@ -377,12 +377,32 @@ Proof.
   constructor; simpl; auto; try exact B.
 Qed.
 
+Lemma precheck_sim l sec off secs : forall fxs ffxs rs, Forall2 fx_same fxs ffxs -> (forall fx, In fx fxs -> fx_ok rs fx) -> wfr secs rs ->
+  f_bind_precheck l sec off ffxs (imgs secs rs) = bind_precheck l sec off fxs rs.
+Proof.
+  induction fxs as [|fx t IH]; intros ffxs rs HF Hok W; inversion HF as [|? fb ? tb Hab HFt]; subst; [reflexivity|].
+  simpl. rewrite (IH tb rs HFt (fun fx0 H => Hok fx0 (or_intror H)) W). f_equal.
+  rewrite <- (bind_sel_respects l sec off fx fb Hab).
+  destruct (bind_sel l sec off fx) as [| |lay lo]; try reflexivity.
+  destruct (Hok fx (or_introl eq_refl)) as (r & Er & Hsec & Hsite & Hrel & Hkind & Hlab & Hword). rewrite Er.
+  destruct Hab as (B1 & B2 & B3 & B4 & B5).
+  destruct (wf_home _ _ W _ _ Er) as (sc & Hsc & Hin). destruct (wf_items _ _ W _ _ Hsc) as (Hitems & _).
+  pose proof (wf_word _ _ W _ _ Er) as Hwr.
+  assert (Hread : read_word (nth (fx_sec fb) (imgs secs rs) []) (fx_off fb) (vnat (fx_kind fb)) = r_word r).
+  { rewrite <- B1, <- B2, <- B4, <- Hsec, <- Hsite, <- Hkind. rewrite (nth_imgs _ _ _ _ Hsc).
+    destruct (flat_upd_at rs (r_sec r) (s_items sc) 0 (fx_id fx) r r ltac:(lia) Hitems Hin Er ltac:(repeat split)) as (_ & Rd).
+    rewrite Z.sub_0_r in Rd. rewrite Rd. apply Z.mod_small. exact Hwr. }
+  rewrite Hread, <- B2, <- B3, <- B4. reflexivity.
+Qed.
+
 Lemma sim_bind s f l : inv s -> wfs s -> sim s f -> step_ok s f (OBind l).
 Proof.
   intros I Wf S. destruct (cur_len s f Wf S) as (Hlen & Hcs). pose proof S as [S1 S2 S3 S4 S5 S6 S7]. pose proof Wf as (W & Hc).
   unfold step_ok, step, fstep; cbv zeta. rewrite Hlen, S2, S3, S5, S6, S7.
   destruct (nth_error (labels s) l) as [[v|]|] eqn:El; cbn [fst snd]; auto.
-  unfold bind_rel. cbv beta iota zeta. cbn [fst snd]. rewrite S1.
+  rewrite S1, (precheck_sim l (cur s) (s_len (cur_sec s)) (secs s) (pending s) (f_pending f) (refs s) S4 (inv_fx _ _ _ _ _ I) W).
+  destruct (bind_precheck l (cur s) (s_len (cur_sec s)) (pending s) (refs s)); cbn [negb]; cbv iota; cbn [fst snd]; [|auto].
+  unfold bind_rel. cbv beta iota zeta. cbn [fst snd].
   destruct (walk_sim (bind_sel l (cur s) (s_len (cur_sec s))) true (secs s) (bind_sel_respects _ _ _) (pending s) (f_pending f) (refs s) S4
               (inv_nodup _ _ _ _ _ I) (inv_fx _ _ _ _ _ I) W) as (A & B & C & D & E).
   split; [split; [exact E|exact Hc]|]. split.
@@ -610,7 +630,8 @@ Proof.
   rewrite (sm_secs _ _ S'), (sm_secs _ _ S).
   assert (Hsecs : secs (fst (step s o)) = secs s).
   { destruct o; try contradiction; simpl.
-    - destruct (nth_error (labels s) l) as [[v|]|]; reflexivity.
+    - destruct (nth_error (labels s) l) as [[v|]|]; try reflexivity.
+      destruct (bind_precheck _ _ _ _ _); reflexivity.
     - reflexivity. }
   rewrite Hsecs.
   destruct (nth_error (secs s) k) as [sc|] eqn:Esc.
@@ -619,6 +640,7 @@ Proof.
     + (* ghost fields are immutable *)
       intros id r Hr. destruct o; try contradiction; simpl.
       * destruct (nth_error (labels s) l) as [[v|]|] eqn:El; try (exists r; split; [exact Hr|repeat split]).
+        destruct (bind_precheck l (cur s) (s_len (cur_sec s)) (pending s) (refs s)); cbn [negb]; cbv iota; [|exists r; split; [exact Hr|repeat split]].
         unfold bind_rel. simpl.
         set (Wk := resolve_list (bind_sel l (cur s) (s_len (cur_sec s))) true (pending s) (refs s)).
         assert (WP : walk_post (upd (labels s) l (Some (cur s, s_len (cur_sec s)))) (bind_sel l (cur s) (s_len (cur_sec s))) (pending s) (refs s) Wk).
